@@ -344,6 +344,20 @@ class C12(core.Check):
             sched["fine_steps"] = k.choice([30, 100, 400])
         if sk == "random":
             sched["budgets"] = k.choice([[1, 2, 3, 5, 8, 13, 50, 200, 1000], [1, 1, 2, 3], [1, 2, 3, 5, 8, 13], [5, 20, 80], [50, 200, 1000, 5000], [1, 5, 1000]])
+        if k.random() < 0.15:
+            # motif: every thread parses its OWN comment-rich document with comments kept, finely interleaved -
+            # anything the parsers share (buffers, caches) shows up as foreign or missing comments
+            w_ = s("workload")
+            docs = {f"d{i}": self.gen.document(w_, w_.choice(["map", "layer", "class"]), comments=0.9) for i in range(nthreads)}
+            files, paths = {}, {}
+            dicts = [{"doc": "d0", "kw": {}}]
+            threads = [[{"fn": r.choice(["loads", "loads", "load"]), "doc": f"d{t}", "kw": {"include_comments": True}}
+                        for _ in range(k.choice([1, 2]))] for t in range(nthreads)]
+            sched = {"kind": k.choice(["random", "entry_sync", "fine_start"]), "seed": s("schedule").randrange(1 << 30)}
+            if sched["kind"] == "random":
+                sched["budgets"] = k.choice([[1, 1, 2, 3], [1, 2, 3, 5, 8, 13], [5, 20, 80]])
+            else:
+                sched["fine_steps"] = k.choice([100, 400, 2000])
         fl = []
         if k.random() < 0.2:
             f = s("faults")
